@@ -1287,3 +1287,127 @@ pub fn c08_service_level() -> (u64, Vec<Violation>) {
     }
     (calls, problems)
 }
+
+/// C16, service level, second world: the record of a candidate waiting in the *pending* slot of a
+/// full bucket is refreshed by a NODES answer that moves it into a /24 which already has its 10
+/// table members; after the pending timeout the table must still hold at most 10 of that /24.
+pub fn c16_service_pending() -> (u64, Vec<Violation>) {
+    let r: Result<u64, Violation> = rt::run(async move {
+        let listen = ListenConfig::Ipv4 { ip: Ipv4Addr::new(10, 0, 0, 65), port: 9000 };
+        let mut node = SNode::start(SNodeSpec { keyno: 65, listen, enr: None }, |b| { b.ip_limit(); }, false).await;
+        let pool = key_pool(&node.id, 6000, 1500);
+        let rec = |k: u16, subnet: u8, host: u8, seq: u64| -> Enr { util::enr(&util::key(k), &util::EnrSpec { seq, ip4: Some((Ipv4Addr::new(10, 90, subnet, host), 9000)), ..Default::default() }) };
+        let harness_err = |m: &str| Violation { clause: "harness".into(), key: "service:pending-world".into(), detail: m.into(), replay: json!(null) };
+        // ten members of subnet 1 in five other buckets
+        let mut host = 1u8;
+        for d in [255u64, 254, 253, 252, 251] {
+            let ks = pool.by_distance.get(&d).cloned().unwrap_or_default();
+            if ks.len() < 2 {
+                return Err(harness_err("too few keys at a low distance"));
+            }
+            for k in ks.iter().take(2) {
+                node.discv5.add_enr(rec(*k, 1, host, 1)).map_err(|_| harness_err("add_enr of a subnet member refused"))?;
+                host += 1;
+            }
+        }
+        // bucket 256 full of other subnets (disconnected entries), then a connected candidate of
+        // yet another subnet: it waits in the pending slot
+        let ks = pool.by_distance.get(&256).cloned().unwrap_or_default();
+        if ks.len() < 18 {
+            return Err(harness_err("too few keys at distance 256"));
+        }
+        for (j, k) in ks.iter().take(16).enumerate() {
+            node.discv5.add_enr(rec(*k, 20 + j as u8, 1, 1)).map_err(|_| harness_err("add_enr into bucket 256 refused"))?;
+        }
+        let c = ks[16];
+        let c_rec = rec(c, 60, 1, 1);
+        node.inject(HandlerOut::Established(c_rec.clone(), c_rec.udp4_socket().unwrap().into(), v::ConnectionDirection::Outgoing)).await;
+        let _ = node.drain_handler_in();
+        let in_table = node.discv5.table_entries().iter().any(|(id, _, _)| *id == c_rec.node_id());
+        if in_table {
+            return Err(harness_err("the candidate entered the full bucket at once"));
+        }
+        // a lookup for the candidate's own id: every contacted peer is asked for the candidate's distance
+        let lookup = tokio::spawn(node.discv5.find_node(c_rec.node_id()));
+        for _ in 0..3 {
+            node.inject(HandlerOut::ExpiredSessions(vec![])).await;
+        }
+        rt::settle().await;
+        let mut answered = 0u64;
+        for hin in node.drain_handler_in() {
+            if let HandlerIn::Request(contact, req) = hin {
+                if let v::RequestBody::FindNode { distances } = &req.body {
+                    let d = util::log2_distance(&contact.node_id(), &c_rec.node_id());
+                    if distances.contains(&d) && answered == 0 {
+                        // the candidate moved into the saturated /24 (newer record)
+                        let newer = rec(c, 1, 200, 2);
+                        let from = NodeAddress { socket_addr: contact.socket_addr(), node_id: contact.node_id() };
+                        node.inject(HandlerOut::Response(from, Box::new(v::Response { id: req.id.clone(), body: v::ResponseBody::Nodes { total: 1, nodes: vec![newer] } }))).await;
+                        answered += 1;
+                    }
+                }
+            }
+        }
+        if answered == 0 {
+            lookup.abort();
+            return Err(harness_err("no request asked for the candidate's distance"));
+        }
+        // the pending timeout elapses; any table access applies the pending candidate
+        clock::advance(std::time::Duration::from_secs(61));
+        for _ in 0..3 {
+            node.inject(HandlerOut::ExpiredSessions(vec![])).await;
+        }
+        let entries = node.discv5.table_entries();
+        lookup.abort();
+        let members = entries.iter().filter(|(_, e, _)| e.ip4().map(|i| i.octets()[..3] == [10, 90, 1]).unwrap_or(false)).count();
+        if members > 10 {
+            return Err(Violation { clause: "the table never holds more than 10 nodes sharing a /24".into(), key: "service:table-limit:pending-record-refreshed".into(), detail: format!("{members} nodes of 10.90.1.0/24 after a pending candidate's record was moved into that subnet by a NODES answer and then promoted"), replay: json!({"engine":"ssim","check":"C16","world":"pending-refresh"}) });
+        }
+        Ok(answered)
+    });
+    match r {
+        Ok(n) => (n, vec![]),
+        Err(v) => (0, vec![v]),
+    }
+}
+
+/* ------------------------------------------------------------------------------------ */
+/* C12, service level: the IP mode of a node built from caller-supplied sockets           */
+/* ------------------------------------------------------------------------------------ */
+
+/// `ListenConfig::FromSockets` with an IPv4 socket only / an IPv6 socket only / both: a record is
+/// admitted by `add_enr` iff it is contactable over a family the node owns a socket for. Real
+/// loopback sockets are bound for this (they are never used: the handler is scripted); where the
+/// sandbox has no IPv6 loopback the IPv6 cases are skipped and counted.
+pub fn c12_from_sockets() -> (u64, u64, Vec<Violation>) {
+    let mut problems = vec![];
+    let (mut cases, mut skipped) = (0u64, 0u64);
+    for (use4, use6) in [(true, false), (false, true), (true, true)] {
+        let r: Result<bool, Violation> = rt::run(async move {
+            let s4 = if use4 { tokio::net::UdpSocket::bind("127.0.0.1:0").await.ok().map(std::sync::Arc::new) } else { None };
+            let s6 = if use6 { tokio::net::UdpSocket::bind("[::1]:0").await.ok().map(std::sync::Arc::new) } else { None };
+            if (use4 && s4.is_none()) || (use6 && s6.is_none()) {
+                return Ok(false);
+            }
+            let listen = ListenConfig::FromSockets { ipv4: s4, ipv6: s6 };
+            let own = util::enr(&util::key(66), &util::EnrSpec { seq: 1, ip4: if use4 { Some((Ipv4Addr::LOCALHOST, 9000)) } else { None }, ip6: if use6 { Some((std::net::Ipv6Addr::LOCALHOST, 9000)) } else { None }, pad: 0 });
+            let node = SNode::start(SNodeSpec { keyno: 66, listen, enr: Some(own) }, |_| {}, false).await;
+            let v4only = util::enr(&util::key(67), &util::EnrSpec { seq: 1, ip4: Some((Ipv4Addr::new(10, 1, 1, 1), 9000)), ..Default::default() });
+            let v6only = util::enr(&util::key(68), &util::EnrSpec { seq: 1, ip6: Some(("2001:db8::68".parse().unwrap(), 9000)), ..Default::default() });
+            for (name, rec, reachable) in [("IPv4-only", v4only, use4), ("IPv6-only", v6only, use6)] {
+                let _ = node.discv5.add_enr(rec.clone());
+                let stored = node.discv5.table_entries().iter().any(|(id, _, _)| *id == rec.node_id());
+                if stored != reachable {
+                    return Err(Violation { clause: "every entry is contactable in the node's IP mode".into(), key: format!("service:from-sockets:{}{}", if use4 { "4" } else { "" }, if use6 { "6" } else { "" }), detail: format!("node built from sockets (ipv4: {use4}, ipv6: {use6}): an {name} record is {} the routing table", if stored { "in" } else { "refused by" }), replay: json!({"engine":"ssim","check":"C12","from_sockets":[use4,use6]}) });
+                }
+            }
+            Ok(true)
+        });
+        match r {
+            Ok(true) => cases += 1,
+            Ok(false) => skipped += 1,
+            Err(v) => problems.push(v),
+        }
+    }
+    (cases, skipped, problems)
+}
